@@ -62,5 +62,6 @@ def run(ctx):
     os.environ["VERIF_TOTALITY_MUTATIONS"] = "0"
     ctx.tlc("MC_CyclesGen", "MC_CyclesGen_contain_" + ctx.tier, replay="cycles", coverage=False)
     ctx.tlc("MC_CyclesGen", "MC_CyclesGen_inherit_" + ctx.tier, replay="cycles", coverage=False)
+    ctx.tlc("MC_CyclesGen", "MC_CyclesGen_alias_" + ctx.tier, replay="cycles", coverage=False)
     trace = ctx.collect_events("totality")
     ctx.validate_events("Trace_Pipeline", trace, parallel=8)
